@@ -15,7 +15,7 @@ LEVEL_TEXT = (
     'because the crash discards them and nothing re-creates them. Reachability of every crash point '
     'is C01 + C04 and is not computed here.')
 
-FLOORS = {'C09-R1': 3, 'C09-R2': 4, 'C09-R3': 3, 'C09-R4': 4, 'C10-R1': 8}
+FLOORS = {'C09-R1': 3, 'C09-R2': 4, 'C09-R3': 3, 'C09-R4': 4, 'C09-R5': 2, 'C10-R1': 8}
 
 TRUNCATING = ('Iterator::take', 'Iterator::skip', 'Iterator::step_by', 'Iterator::take_while',
               'Iterator::skip_while', 'Iterator::nth', 'Iterator::last', 'Iterator::next', 'Iterator::find',
@@ -127,13 +127,40 @@ def r4_budget(ctx, F):
     if not some or not none:
         raise AnchorMissing('actions(): Some/None edges of the crash loop')
 
-    def is_count(v):
-        v = noref(v)
-        c = b.call_at(v.key) if v.kind == 'call' else None
-        return c is not None and c.is_('Iterator::count', 'Iterator::sum', 'Vec::len')
-
     def is_budget(v):
         return noref(v).fields()[-1:] == ('.max_crashes',)
+    no_budget = edges_where(b, is_budget, lambda v: v.kind == 'const' and v.key == 0, 'eq')
+
+    def count_calls(v):
+        """the counting calls v stands for; a constant 0 chosen when max_crashes == 0 (nothing can be offered
+        then anyway) is not a count of its own. None: something else."""
+        v = noref(v)
+        if v.kind == 'call':
+            c = b.call_at(v.key)
+            return [c] if c is not None and not v.projs and c.is_('Iterator::count', 'Iterator::sum', 'Vec::len') else None
+        if v.kind == 'local' and not v.projs:
+            out = []
+            for d in [d for d in b.defs.get(v.key, []) if d[1] == 'call' or not d[2]['lhs']['p']]:
+                if d[1] == 'call':
+                    r = count_calls(V('call', d[0]))
+                else:
+                    rv = d[2]['rv']
+                    dv = b.val(rv['op']) if rv['k'] == 'use' else None
+                    if dv is not None and dv.kind == 'const' and dv.key == 0 and no_budget and \
+                            b.edges_dominate(no_budget, d[0]):
+                        r = []
+                    elif dv is not None and noref(dv) != v:
+                        r = count_calls(dv)
+                    else:
+                        r = None
+                if r is None:
+                    return None
+                out += r
+            return out or None
+        return None
+
+    def is_count(v):
+        return bool(count_calls(v))
     lt = edges_where(b, is_count, is_budget, 'lt', with_blocks=True)
     loose = edges_where(b, is_count, is_budget, 'le') + edges_where(b, is_count, is_budget, 'ne')
     lt_edges = [e for (_bb, es) in lt for e in es]
@@ -150,10 +177,8 @@ def r4_budget(ctx, F):
     # counting chain is `state.crashed.iter().filter(..).count()`)
     okc = False
     for c in b0.calls_to('Iterator::count', 'Iterator::sum', 'Vec::len'):
-        used = any(is_count(x) and noref(x).key == cb_.bb for (x, y, r, te, fe, bb) in __import__('common').comparisons(b)
-                   for cb_ in b.calls if cb_.span == c.span and cb_.short == c.short) or \
-            any(is_count(y) and noref(y).key == cb_.bb for (x, y, r, te, fe, bb) in __import__('common').comparisons(b)
-                for cb_ in b.calls if cb_.span == c.span and cb_.short == c.short)
+        used = any(cb_ in (count_calls(z) or []) for (x, y, r, te, fe, bb) in __import__('common').comparisons(b)
+                   for z in (x, y) for cb_ in b.calls if cb_.span == c.span and cb_.short == c.short)
         if not used:
             continue
         src = noref(b0.trace(b0.val(c.args[0]), ('Iterator::filter', 'slice::iter', 'Deref::deref', 'Vec::iter',
@@ -223,8 +248,50 @@ def r4_budget(ctx, F):
               bad='actions(): Crash actions are not restricted to actors that are up / not keyed by index')
 
 
+def r5_sender_crash_is_irrelevant(ctx, F, rule='C09-R5'):
+    """"All other actors behave as before": a message that was sent before its sender crashed is an ordinary
+    in-flight message. Neither the offered actions nor the Deliver step may look at the crash flag of the
+    envelope's *source* (dataflow A13: values read from `.src` of an envelope must not reach the index of a read
+    of `state.crashed`)."""
+    from taint import Taint
+    for path, what in ((ACTIONS, 'actions'), (NS, 'next_state')):
+        b0 = F.body(path)
+        ctx.touched(b0)
+        b = F.norm(b0)
+        seeds = {}
+        for (i, si, st) in b.assigns():
+            rv = st['rv']
+            ops = [rv.get('op')] if rv['k'] in ('use', 'cast') else [rv.get('place') and {'k': 'copy', 'place': rv['place']}] \
+                if rv['k'] == 'ref' else []
+            for o in ops:
+                if not o or o.get('k') not in ('copy', 'move'):
+                    continue
+                names = [e.get('name') for e in o['place']['p'] if isinstance(e, dict)]
+                if names and names[-1] == 'src' and not st['lhs']['p']:
+                    seeds.setdefault(st['lhs']['l'], set()).add('SRC')
+        # by-value parts of an aggregate handed to a call: `(env.src, env.dst)` etc. are covered by the assigns above
+        T = Taint(b, seeds)
+        reads = []
+        for c in b.calls:
+            if c.is_('slice::get', 'Index::index', 'Vec::get', 'slice::get_unchecked', 'IndexMut::index_mut',
+                     'slice::get_mut') and len(c.args) >= 2:
+                recv = noref(b.trace(b.val(c.args[0]), ('Deref::deref', 'DerefMut::deref_mut')))
+                if recv.fields()[-1:] == ('.crashed',):
+                    reads.append(c)
+        bad = [c for c in reads if 'SRC' in T.of_operand(c.args[1], c.bb)]
+        ctx.check(not bad, rule, 'crash-flag-of-sender-not-consulted@%s' % what, b0,
+                  good='%s never reads the crash flag of an envelope\'s sender (%d reads of state.crashed)' %
+                       (what, len(reads)),
+                  bad='%s reads state.crashed at an index derived from an envelope\'s `src`: whether a message is '
+                      'offered / delivered depends on its sender having crashed afterwards - the crash of one actor '
+                      'changes what another (live) actor can do' % what, span=bad[0].span if bad else None)
+
+
 def run(ctx):
     F = ctx.facts
+    ctx.doc('C09-R5', 'neither actions() nor next_state() reads state.crashed at an index derived from an envelope\'s src')
+    with ctx.rule('C09-R5', 'sender crash'):
+        r5_sender_crash_is_irrelevant(ctx, F)
     ctx.doc('C09-R1', 'ActorModelState::{hash, eq} read `crashed` (both operands): crash points are distinct states')
     ctx.doc('C09-R2', 'Crash arm: cancel_all, clear random choices and crashed[i]=true are must-pass-through; '
                       'no handler, no commands')
